@@ -1,1 +1,109 @@
-//! Hooks for property C10 (empty unless needed).
+//! Hooks for property C10 (relay frame codec): re-exports of the crate-private codec functions and
+//! an in-memory websocket pair made of the real client [`Conn`] and the real server [`RelayedStream`].
+
+use bytes::{Bytes, BytesMut};
+use n0_future::{SinkExt, StreamExt};
+
+use crate::{
+    KeyCache,
+    client::conn::Conn,
+    http::ProtocolVersion,
+    protos::{
+        common::{FrameType, FrameTypeError},
+        relay::{ClientToRelayMsg, Error, MAX_FRAME_SIZE, RelayToClientMsg},
+        streams::WsBytesFramed,
+    },
+    server::streams::RelayedStream,
+};
+
+pub fn frame_type_write(ft: FrameType) -> Vec<u8> {
+    ft.write_to(Vec::new())
+}
+
+pub fn frame_type_encoded_len(ft: FrameType) -> usize {
+    ft.encoded_len()
+}
+
+pub fn frame_type_from_bytes(buf: &mut Bytes) -> Result<FrameType, FrameTypeError> {
+    FrameType::from_bytes(buf)
+}
+
+pub fn r2c_to_bytes(msg: &RelayToClientMsg) -> BytesMut {
+    msg.to_bytes()
+}
+
+pub fn r2c_encoded_len(msg: &RelayToClientMsg) -> usize {
+    msg.encoded_len()
+}
+
+pub fn r2c_from_bytes(
+    content: Bytes,
+    cache: &KeyCache,
+    protocol_version: ProtocolVersion,
+) -> Result<RelayToClientMsg, Error> {
+    RelayToClientMsg::from_bytes(content, cache, protocol_version)
+}
+
+pub fn c2r_to_bytes(msg: &ClientToRelayMsg) -> BytesMut {
+    msg.to_bytes()
+}
+
+pub fn c2r_encoded_len(msg: &ClientToRelayMsg) -> usize {
+    msg.encoded_len()
+}
+
+pub fn c2r_from_bytes(content: Bytes, cache: &KeyCache) -> Result<ClientToRelayMsg, Error> {
+    ClientToRelayMsg::from_bytes(content, cache)
+}
+
+/// The real client connection (`Conn::test`) and the real server-side stream
+/// (`RelayedStream` over a websocket server end with the production payload limit) joined by
+/// an in-memory duplex pipe. No handshake is performed.
+pub struct Pair {
+    client: Conn,
+    server: RelayedStream<WsBytesFramed<tokio::io::DuplexStream>>,
+}
+
+impl Pair {
+    pub fn new(protocol_version: ProtocolVersion, buf_size: usize) -> Self {
+        let (a, b) = tokio::io::duplex(buf_size);
+        let client = Conn::test(a, protocol_version);
+        let server = RelayedStream::new(
+            WsBytesFramed {
+                io: tokio_websockets::ServerBuilder::new()
+                    .limits(
+                        tokio_websockets::Limits::default().max_payload_len(Some(MAX_FRAME_SIZE)),
+                    )
+                    .serve(b),
+            },
+            KeyCache::test(),
+        );
+        Self { client, server }
+    }
+
+    pub async fn client_send(
+        &mut self,
+        msg: ClientToRelayMsg,
+    ) -> Result<(), crate::client::SendError> {
+        self.client.send(msg).await
+    }
+
+    pub async fn client_recv(
+        &mut self,
+    ) -> Option<Result<RelayToClientMsg, crate::client::RecvError>> {
+        self.client.next().await
+    }
+
+    pub async fn server_send(
+        &mut self,
+        msg: RelayToClientMsg,
+    ) -> Result<(), crate::server::streams::SendError> {
+        self.server.send(msg).await
+    }
+
+    pub async fn server_recv(
+        &mut self,
+    ) -> Option<Result<ClientToRelayMsg, crate::server::streams::RecvError>> {
+        self.server.next().await
+    }
+}
